@@ -126,7 +126,13 @@ def run_family(fam, tier):
     p = subprocess.run([BIN, fam, tier], capture_output=True, text=True, timeout=800)
     if p.returncode != 0:
         raise RuntimeError(f"zk_replay {fam} failed: {p.stderr[-500:]}")
-    return json.loads(p.stdout)["probes"]
+    probes = json.loads(p.stdout)["probes"]
+    for pr in probes:
+        if "driver-error" in pr.get("tags", []) and pr.get("id", "").endswith("-honest-setup-step"):
+            # a negative family whose honest setup does not run on this tree cannot say anything: undecided, not a violation
+            # (the completeness families report the failed honest operation itself)
+            raise RuntimeError(f"zk_replay {fam}: an honest step of the family's setup failed on the current tree: {pr.get('outcome')}")
+    return probes
 
 
 def main():
